@@ -424,15 +424,81 @@ def fen_squares(fen):
     return out
 
 
+def vlib_harness():
+    return os.path.join(vlib.cxx_build("plain", ("vharness",)), "vharness")
+
+
+def king_cage(r):
+    """synthetic position aimed at the king case of pieceCanMove: a king whose neighbour squares are own blocked men or empty
+    squares attacked by enemy pawns, some of which are obstacles themselves and some not -> (fen, mask)"""
+    for _ in range(50):
+        white = r.random() < 0.5
+        K, k, P, p, N = ("K", "k", "P", "p", "N") if white else ("k", "K", "p", "P", "n")
+        fwd = 1 if white else -1                     # enemy pawns attack towards the king's side: they stand on rank + fwd of the square they attack
+        kx, ky = r.randrange(8), r.randrange(1, 7)
+        bd, mask = {ky * 8 + kx: K}, 0
+        ok = True
+        for dx in (-1, 0, 1):
+            for dy in (-1, 0, 1):
+                x, y = kx + dx, ky + dy
+                if (dx == 0 and dy == 0) or not (0 <= x < 8 and 0 <= y < 8) or y * 8 + x in bd: continue
+                u = r.random()
+                if u < 0.4:
+                    bd[y * 8 + x] = P if 1 <= y <= 6 and r.random() < 0.7 else N
+                    if r.random() < 0.9: mask |= 1 << (y * 8 + x)
+                elif u < 0.9:
+                    py = y + fwd
+                    cand = [px for px in (x - 1, x + 1) if 0 <= px < 8 and 1 <= py <= 6 and (py * 8 + px) not in bd and max(abs(px - kx), abs(py - ky)) > 1]
+                    if cand:
+                        sq = py * 8 + r.choice(cand)
+                        bd[sq] = p
+                        if r.random() < 0.5: mask |= 1 << sq
+        # the other king: far away, not attacked by the pawns / knights / king placed so far
+        def attacked(q):
+            x, y = q % 8, q // 8
+            for s2, c in bd.items():
+                sx, sy = s2 % 8, s2 // 8
+                if c == K and max(abs(sx - x), abs(sy - y)) <= 1: return True
+                if c == N and sorted((abs(sx - x), abs(sy - y))) == [1, 2]: return True
+                if c == P and abs(sx - x) == 1 and y - sy == fwd: return True
+            return False
+        free = [q for q in range(64) if q not in bd and not attacked(q)]
+        if not free: continue
+        bd[r.choice(free)] = k
+        rows = []
+        for y in range(7, -1, -1):
+            row, e = "", 0
+            for x in range(8):
+                c = bd.get(y * 8 + x)
+                if c is None: e += 1
+                else: row += (str(e) if e else "") + c; e = 0
+            rows.append(row + (str(e) if e else ""))
+        return "/".join(rows) + (" w" if white else " b") + " - - 0 1", mask
+    return None
+
+
 def deadlock_diff(ctx, games, quick):
     """`ProofGame::computeDeadlockedPieces` against the model `PG.deadlocked` / `PG.verdict` whose soundness is
     `Props.C16.deadlocked_pieces_sound_partial`: positions of generated games x blocked masks (subsets of the occupied squares)"""
     r = ctx.rng
-    n = 6000 if quick else 80000
+    n = int(os.environ.get("C16_DEADLOCK_N", 0)) or (6000 if quick else 80000)
     pool = [(g, k) for g in games for k in g.fens]
-    lines, shapes, meta = [], {}, []
+    lines, shapes, meta, shape_of = [], {}, [], []
     def add(shape, mask, fp, fg):
-        lines.append(f"pg deadlock {mask} {fp} {fg}"); shapes[shape] = shapes.get(shape, 0) + 1; meta.append((g, k))
+        lines.append(f"pg deadlock {mask} {fp} {fg}"); shapes[shape] = shapes.get(shape, 0) + 1; meta.append((g, k)); shape_of.append(shape)
+    # (i) the masks computeBlocked really establishes for (position, final position of the same game) pairs with equally many men
+    real = [(g, k) for g in games for k in g.fens if sum(fen_men(g.fens[k])) == sum(fen_men(g.fens[len(g.moves)]))]
+    r.shuffle(real); real = real[: n // 3]
+    bmask = pool_lines(vlib_harness(), [f"pg blocked {g.fens[k]} {g.fens[len(g.moves)]}" for g, k in real], 8, JOBS) if real else []
+    for (g, k), o in zip(real, bmask):
+        if o.isdigit() and not (int(o) & ~sum(1 << q for q in fen_squares(g.fens[k]))):
+            add("computeBlocked", int(o), g.fens[k], g.fens[len(g.moves)])
+    # (ii) synthetic king cages (the function and its model are total on boards: the positions need not come from games)
+    g, k = None, 0
+    for _ in range(n // 6):
+        kc = king_cage(r)
+        if kc: add("king-cage", kc[1], kc[0], kc[0])
+    # (iii) arbitrary subsets of the occupied squares
     while len(lines) < n and pool:
         g, k = pool[r.randrange(len(pool))]
         fp = g.fens[k]
@@ -460,7 +526,9 @@ def deadlock_diff(ctx, games, quick):
     nrej = sum(1 for o in out1 if o.endswith(" 0"))
     ctx.tie("pg-deadlock", lines=len(lines), mask_shapes=json.dumps(shapes), with_deadlocked_pieces=nd, rejected=nrej,
             theorem="Props.C16.deadlocked_pieces_sound_partial / deadlocked_reject_sound_partial")
-    print(f"[C16] deadlock differential: {len(lines)} (position, goal, blocked) triples, {nd} with deadlocked pieces, {nrej} rejected, shapes {shapes}", flush=True)
+    nmis = sum(1 for a, b in zip(out1, out2) if a != b)
+    print(f"[C16] deadlock differential: {len(lines)} (position, goal, blocked) triples, {nd} with deadlocked pieces, {nrej} rejected, {nmis} disagreements, shapes {shapes}", flush=True)
+    if nmis: print("[C16] disagreeing shapes: " + json.dumps({sh: sum(1 for a, b, x in zip(out1, out2, shape_of) if a != b and x == sh) for sh in shapes}), flush=True)
     if nd == 0 and lines:
         ctx.violation("generator coverage: no blocked mask produced a deadlocked piece", {"kind": "coverage"}, no_input=True)
     if mis is not None and mis < len(lines):
@@ -474,6 +542,7 @@ def deadlock_diff(ctx, games, quick):
             if a == b or len(a) != 2 or len(b) != 2 or not (a[0].isdigit() and b[0].isdigit()): continue
             extra = int(a[0]) & ~int(b[0])
             g, k = meta[i]
+            if g is None: continue
             nfin = len(g.moves)
             if not extra or sum(fen_men(g.fens[k])) != sum(fen_men(g.fens[nfin])): continue
             for j in range(k, nfin):
@@ -575,6 +644,7 @@ def run(ctx):
         if len(pairs) >= (16 if quick else 60) and len(seen) == 4: break
     kernel_diff(ctx, pairs, quick)
     deadlock_diff(ctx, games + xgames, quick)
+    if os.environ.get("C16_ONLY_DEADLOCK"): return          # development aid
     ctx.log("kernel differential done")
 
     # ---- (b1) ProofGame API on (prefix, final) pairs -----------------------------------------------------------
